@@ -1,8 +1,11 @@
 import PyrollModel.Gen.C04
 import PyrollModel.Gen.C04Groove
 import PyrollModel.Gen.C04Valid
+import PyrollModel.Gen.C04Stored
 import PyrollModel.EvalDriver
 /-- Float evaluation of everything generated for C04: solver closed forms and residuals, constructor plumbing
     (`<plumb name>.<keyword>`), the junction chain, the four-way resolution, the contour-line functions and both sides of
-    every test of `test_plausibility` (see PyrollModel/EvalDriver.lean for the protocol). -/
-def main : IO Unit := EvalDriver.main (Gen.C04.fullTable ++ Gen.C04.Groove.table ++ Gen.C04.Valid.table)
+    every test of `test_plausibility`, and the values the finished objects report through their public properties
+    (`reported_<Class>_<k>.<name>`, `getters_GenericElongationGroove.<name>`; see PyrollModel/EvalDriver.lean for the protocol). -/
+def main : IO Unit := EvalDriver.main (Gen.C04.fullTable ++ Gen.C04.Groove.table ++ Gen.C04.Valid.table
+  ++ Gen.C04.Stored.reportedTable)
